@@ -25,11 +25,11 @@ def parseUser : Sexp → Option User
 def parseFK : String → Option FK
   | "gm" => some .gm | "gs" => some .gs | "u" => some .u | "x" => some .x | "s" => some .s
   | "b" => some .b | "c" => some .c | "r" => some .r | "a" => some .a | "y" => some .y
-  | "p" => some .p | "f" => some .f | "m" => some .m
+  | "p" => some .p | "f" => some .f | "m" => some .m | "n" => some .n
   | _ => none
 
 def parseMode : String → Option Mode
-  | "e" => some .e | "t" => some .t | "more" => some .more | "z" => some .z
+  | "e" => some .e | "t" => some .t | "more" => some .more | "mres" => some .mres | "z" => some .z
   | _ => none
 
 def parseQK : String → Option QK
@@ -76,10 +76,10 @@ def tf (b : Bool) : String := if b then "t" else "f"
 
 def ckName : CK → String
   | .U => "U" | .X => "X" | .S => "S" | .B => "B" | .C => "C" | .R => "R"
-  | .A0 => "A0" | .A1 => "A1" | .Y => "Y" | .P => "P" | .F => "F" | .M => "M"
+  | .A0 => "A0" | .A1 => "A1" | .Y => "Y" | .P => "P" | .F => "F" | .M => "M" | .N => "N"
 
 def resName : Res → String
-  | .ok => "ok" | .e => "e" | .t => "t" | .more => "more" | .z => "z"
+  | .ok => "ok" | .e => "e" | .t => "t" | .more => "more" | .mres => "mres" | .z => "z"
 
 def fmtEvent : Event → String
   | .get m sl none => s!"(G {if m then "m" else "s"} {sl} e)"
@@ -127,10 +127,11 @@ structure ObsOp where
 def parseCK : String → Option CK
   | "U" => some .U | "X" => some .X | "S" => some .S | "B" => some .B | "C" => some .C | "R" => some .R
   | "A0" => some .A0 | "A1" => some .A1 | "Y" => some .Y | "P" => some .P | "F" => some .F | "M" => some .M
+  | "N" => some .N
   | _ => none
 
 def parseRes : String → Option Res
-  | "ok" => some .ok | "e" => some .e | "t" => some .t | "more" => some .more | "z" => some .z
+  | "ok" => some .ok | "e" => some .e | "t" => some .t | "more" => some .more | "mres" => some .mres | "z" => some .z
   | _ => none
 
 def parseEvent : Sexp → Option Event
@@ -328,10 +329,12 @@ def monAll (cfg : Cfg) : Mon → List Op → List ObsOp → Mon
   | m, op :: ops, o :: os => monAll cfg (monOp cfg m op o) ops os
   | m, _, _ => m
 
-/-- classes of the defects of the pinned tree that are listed as known findings:
-    a different violation in the same session is reported first -/
-def lowPriority : List String :=
-  ["tx-continues-after-conn-loss", "ks-readonly-tx-on-replica", "shard-timeout-conn-returned-in-flight"]
+/-- classes reported only when no other violation was seen in the same session
+    (none today: the three classes that were listed here as known findings of
+    the pinned tree - tx-continues-after-conn-loss, ks-readonly-tx-on-replica,
+    shard-timeout-conn-returned-in-flight - are repaired and are ordinary
+    violations now) -/
+def lowPriority : List String := []
 
 def hasWord (s w : String) : Bool := (s.splitOn " ").contains w
 
